@@ -272,3 +272,53 @@ def fam_c18_logos(R, n):
             out.append(dict(family='c18-logos', src=src, meta=dict(group=gid, perm=list(perm))))
         gid += 1
     return out
+
+
+# ---------------------------------------------------------------------------------------------
+# C17: enum sources for strip_attributes / logos-cli
+# ---------------------------------------------------------------------------------------------
+DERIVES = ['Logos', 'Debug', 'Clone', 'PartialEq', 'Eq', 'Copy', 'Hash', 'logos::Logos', '::logos::Logos', 'serde::Serialize',
+           '::core::fmt::Debug', 'std::cmp::PartialOrd', 'my::Logos']
+ENUM_ATTRS = ['#[repr(u8)]', '#[allow(dead_code)]', '/// A token.', '#[cfg_attr(test, derive(Default))]', '#[non_exhaustive]',
+              '#[logos(skip " +")]', '#[logos(extras = u32)]', '#[cfg_attr(feature = "x", logos(skip "y"))]', '#[doc = "hi"]']
+VAR_ATTRS = ['/// doc comment', '#[allow(unused)]', '#[cfg(test)]', '#[default]', '#[doc(hidden)]']
+FIELD_ATTRS = ['#[allow(unused)]', '#[cfg(test)]']
+
+
+def fam_c17(R, n):
+    out = []
+    fixed = ['#[derive(Debug, logos::Logos, Clone)]', '#[derive(Logos)]', '#[derive(::logos::Logos, Debug,)]', '#[derive(Debug)]\n#[derive(Logos, Clone)]',
+             '#[derive(Debug, Logos, )]', '#[derive(serde::Serialize, Logos, serde::Deserialize)]']
+    for i in range(n):
+        if i < len(fixed):
+            dl = [fixed[i]]
+        else:
+            k = R.choice([1, 2, 3, 4])
+            ds = R.sample(DERIVES, k)
+            if not any(d.endswith('Logos') for d in ds):
+                ds.insert(R.randrange(len(ds) + 1), R.choice(['Logos', 'logos::Logos']))
+            if R.random() < 0.3:
+                cut = R.randrange(1, len(ds)) if len(ds) > 1 else 1
+                dl = ['#[derive(%s)]' % ', '.join(ds[:cut]), '#[derive(%s)]' % ', '.join(ds[cut:])] if ds[cut:] else ['#[derive(%s)]' % ', '.join(ds)]
+            else:
+                dl = ['#[derive(%s%s)]' % (', '.join(ds), ',' if R.random() < 0.2 else '')]
+        attrs = dl + R.sample(ENUM_ATTRS, R.choice([0, 1, 2, 3]))
+        R.shuffle(attrs)
+        vs = []
+        nv = R.choice([1, 2, 3, 4])
+        for j in range(nv):
+            va = R.sample(VAR_ATTRS, R.choice([0, 0, 1, 2]))
+            la = R.choice(['#[token("t%d")]' % j, '#[regex("r%d+")]' % j, '#[token("u%d")]\n#[regex("v%d")]' % (j, j), ''])
+            parts = va + ([la] if la else [])
+            R.shuffle(parts)
+            if R.random() < 0.25:
+                fa = R.choice(FIELD_ATTRS + ['']) 
+                body = 'V%d(%s &\'static str)' % (j, fa) if False else 'V%d(%s u32)' % (j, fa)
+                if la:
+                    parts = [p.replace(')]', ', |_| 0u32)]') if p.startswith(('#[token', '#[regex')) and '\n' not in p else p for p in parts]
+            else:
+                body = 'V%d' % j
+            vs.append('\n    '.join(parts + [body + ',']))
+        src = '\n'.join(attrs + ['pub enum T%d {' % i] + ['    ' + v for v in vs] + ['}'])
+        out.append(dict(family='c17', src=src, meta={}))
+    return out
